@@ -82,6 +82,32 @@ func intrinsicFuncMod(fn *ssa.Function) *ModSet {
 	}
 	full := fn.String()
 	switch {
+	case strings.HasPrefix(full, "(*strings.Builder)."), strings.HasPrefix(full, "(*bytes.Buffer)."),
+		full == "fmt.Fprintf", full == "fmt.Fprint", full == "fmt.Fprintln":
+		// writers: only the builder/buffer's own fields and byte storage change (fmt.Fprint* are assumed to be
+		// given a strings.Builder, bytes.Buffer or an OS stream, which has no modelled heap)
+		ms := &ModSet{Arrs: map[string]bool{}, Alloc: true}
+		for _, p := range []string{"strings", "bytes"} {
+			if pk := findStdType(fn, p); pk != nil {
+				for _, a := range storeArrays(pk) {
+					ms.Arrs[a] = true
+				}
+			}
+		}
+		ms.Arrs["E|uint8"] = true
+		return ms
+	case full == "fmt.Sscanf", full == "fmt.Sscan", full == "fmt.Sscanln":
+		// writes only through its pointer arguments, which point to scalar cells
+		ms := &ModSet{Arrs: map[string]bool{}, Alloc: true}
+		for _, b := range []types.BasicKind{types.Int, types.Int8, types.Int16, types.Int32, types.Int64, types.Uint, types.Uint8, types.Uint16, types.Uint32, types.Uint64, types.Float32, types.Float64, types.String, types.Bool} {
+			for _, a := range storeArrays(types.Typ[b]) {
+				ms.Arrs[a] = true
+				famLeafSort[a] = layoutOf(types.Typ[b]).leaves[0].Sort
+			}
+		}
+		return ms
+	case strings.HasPrefix(full, "(*log/slog.Logger)."), strings.HasPrefix(full, "log."), strings.HasPrefix(full, "(*log.Logger)."):
+		return &ModSet{Arrs: map[string]bool{}, Alloc: true}
 	case strings.HasPrefix(full, "sync/atomic."), strings.HasPrefix(full, "(*sync/atomic."),
 		strings.HasPrefix(full, "(*sync.Mutex)."), strings.HasPrefix(full, "(*sync.RWMutex)."), strings.HasPrefix(full, "(*sync.Pool)."),
 		strings.HasPrefix(full, "(*sync.Once)."), strings.HasPrefix(full, "(*sync.WaitGroup)."), strings.HasPrefix(full, "runtime."):
@@ -343,4 +369,27 @@ func (fr *Frame) atomicIntrinsic(ins ssa.Instruction, callee *ssa.Function, c *s
 		return Val{C: []string{ok}}, true
 	}
 	return Val{}, false
+}
+
+var stdTypeCache = map[string]types.Type{}
+
+// findStdType: strings.Builder / bytes.Buffer named types from the loaded program
+func findStdType(fn *ssa.Function, pkg string) types.Type {
+	if t, ok := stdTypeCache[pkg]; ok {
+		return t
+	}
+	var res types.Type
+	for _, p := range fn.Prog.AllPackages() {
+		if p.Pkg.Path() == pkg {
+			name := "Builder"
+			if pkg == "bytes" {
+				name = "Buffer"
+			}
+			if o := p.Pkg.Scope().Lookup(name); o != nil {
+				res = o.Type()
+			}
+		}
+	}
+	stdTypeCache[pkg] = res
+	return res
 }
